@@ -52,6 +52,15 @@ def generate(res, kind, c, timeout=900):
 
 
 def mkcfg(kind, c, rng):
+    cfg = mkcfg0(kind, c, rng)
+    if c.get("twocol"):
+        cfg["twocol"] = True
+    if rng.random() < 0.25:
+        cfg["floatts"] = True       # timestamps handed in as float64 (JSON): the same instants, the same windows
+    return cfg
+
+
+def mkcfg0(kind, c, rng):
     unit = rng.choice(UNITS)
     period = c["size"] * c.get("slide", 1)
     base_ms = 1_700_000_000_000
@@ -65,6 +74,11 @@ def mkcfg(kind, c, rng):
 
 def random_free(kind, c, rng, n):
     """free-running scenario: jittered, mostly increasing timestamps, duplicates and boundaries"""
+    if c.get("manyintervals"):
+        # rows spread over one long window span, then ONE far row: a single watermark step passes the end of several hundred intervals
+        steps = [{"a": "add", "id": i + 1, "ts": t} for i, t in enumerate(sorted(rng.sample(range(0, c["size"]), min(40, c["size"]))))]
+        steps.append({"a": "add", "id": len(steps) + 1, "ts": 20 * c["size"]})
+        return steps
     if c.get("manykeys"):
         # many keys with one short session each, all closed by ONE watermark step (a far event of a fresh key), then once more
         steps, i = [], 0
@@ -91,6 +105,10 @@ def random_free(kind, c, rng, n):
         st = {"a": "add", "id": i, "ts": ts}
         if kind == "session":
             st["g"] = rng.choice(["a", "b", "c"][:c.get("keys", 2)])
+            if c.get("twocol"):      # two grouping columns: keys that agree in the first column are different keys
+                st["g"] = rng.choice(["a/R1", "a/R2", "b/R1", "a/R1"])
+        if c.get("mtrig") and rng.random() < c["mtrig"]:
+            steps.append({"a": "mtrig"})          # the application flushes the window by hand
         if rng.random() < 0.04:
             st["fut"] = 1
         steps.append(st)
